@@ -167,6 +167,22 @@ def check(ctx):
                     pseudo(chain[0].value.args[1]) == pseudo(loop.iter) == pseudo(chain[0].targets[0])
     run.check(okl, 'R21', fork.where, fork.qualname, 'unselected rows before the first selected one are yielded; that row is pushed back',
               'the first selected row (or rows before it) is lost when the parallel section starts')
+    # (g) every queue read of the protocol blocks without a timeout: a timed / non-blocking read makes delivery depend on timing
+    #     (an idle worker would give up, emit its end marker and rows arriving later are lost)
+    qnames = set()
+    for f in (prod, fetch, work, fork, init):
+        for n in ast.walk(f.node):
+            if isinstance(n, ast.Call) and isinstance(n.func, ast.Attribute) and n.func.attr in ('get', 'get_nowait', 'put_nowait') \
+                    and pseudo(n.func.value) and pseudo(n.func.value).startswith('q_'):
+                ok_g = n.func.attr == 'get' and not n.args and not n.keywords
+                run.check(ok_g, 'R21', where(repo, n), f.qualname, '(g) blocking read ' + u(n),
+                          'a protocol queue is read with a timeout / without blocking: under a slow producer the reader gives up, '
+                          'the end-marker count is reached early and later rows are lost')
+            if isinstance(n, ast.Call) and isinstance(n.func, ast.Attribute) and n.func.attr == 'put' \
+                    and pseudo(n.func.value) and pseudo(n.func.value).startswith('q_'):
+                ok_p = len(n.args) == 1 and not n.keywords
+                run.check(ok_p, 'R21', where(repo, n), f.qualname, '(g) blocking put ' + u(n),
+                          'a protocol queue is written with a timeout / without blocking: a full queue drops the row')
     func = repo.func(P + ':parallelize.func')
     stream.r6_identity(ctx, [func])
     stream.r6_count_agreement(ctx, [func])
